@@ -380,6 +380,37 @@ def run(ctx):
         text = U.render_root('Nums', v, U.Style(rng, strict=True))
         for pf in (0, 2, 8):
             cases.append(('int64-grid', 'Nums', v, text, pf, rng.choice([0, 2]), True))
+    # every integer width at MIN / MIN+1 / MAX / MAX-1 / 0 / -1 in every position (table field, struct member, vector element, fixed array
+    # element, enum member of a signed base type given as symbol and as number): all fields present, every integer leaf takes the k-th limit
+    class LimitGen(U.Gen):
+        def __init__(self, rng, k): U.Gen.__init__(self, rng, max_depth=2, text='utf8'); self.k = k
+        def scalar(self, t):
+            k = self.k
+            if t in U.INT_RANGES:
+                lo, hi = U.INT_RANGES[t]
+                return [lo, lo + 1, hi, hi - 1, 0, -1 if lo < 0 else 1][k]
+            if t in U.ENUMS and not U.ENUMS[t]['flags']:
+                vals = sorted(U.ENUMS[t]['syms'].values()); lo, hi = U.INT_RANGES[U.ENUMS[t]['base']]
+                return (vals + [lo, hi])[(k + self.rng.randint(0, 1)) % (len(vals) + 2)]
+            if t in U.ENUMS:
+                lo, hi = U.INT_RANGES[U.ENUMS[t]['base']]
+                return [0, hi, 1, hi - 1, 0, 3][k] & hi
+            return U.Gen.scalar(self, t)
+    for k in range(6):
+        for root in ('Nums', 'Nums', 'Root', 'Fix', 'Pt', 'Leaf', 'Sub', 'Other'):
+            g = LimitGen(rng, k)
+            v = g.struct(root) if root in U.STRUCTS else g.table(root, 0, p_present=1.0)
+            if root == 'Root': v.pop('nest64', None); v.pop('nest_s', None)
+            for mode in ('sym', 'num'):
+                st = U.Style(rng, strict=True); st.enum_mode = mode; st.omit_struct_fields = False
+                text = U.render_root(root, v, st)
+                for pf in (0, 2, 1):
+                    cases.append(('int-limits', root, v, text, pf, 0, True))
+    # a bit_flags enum that defines every bit of its base type: value 0 (no flag), all bits, in a field and in a vector
+    for body, v in ((b'{"full":0}', {'full': 0}), (b'{"full":255}', {'full': 255}), (b'{"vfull":[0,1,255,0]}', {'vfull': [0, 1, 255, 0]}), (b'{"vfull":[0]}', {'vfull': [0]}),
+                    (b'{"full":128,"vfull":[3,0,0]}', {'full': 128, 'vfull': [3, 0, 0]}), (b'{}', {})):
+        for pf in (0, 1, 2, 4, 8, 9):
+            cases.append(('bitflags-all-bits', 'Nums', v, body, pf, 0, True))
     # sampled finite floats (C19 covers the float codecs exhaustively)
     for dv in (0.1, 1e-5, 1e21, 1e22, 123456789.0, 5e-324, 2.2250738585072014e-308, 1.7976931348623157e308, 0.30000000000000004, -1e-7, 4.35, 9007199254740993.0):
         for fv in (0.1, 16777216.0, 1e-10, 3.4028234663852886e38, 1.17549435e-38, -0.0):
@@ -413,12 +444,20 @@ def run(ctx):
             m = re.search(r'@(\S+)', asan)
             ctx.violation('rt-asan:' + (m.group(1) if m else '?'), 'sanitizer report during print/parse round trip (printer flags %d, indent %d): %s' % (pf, indent, asan[:200]), replay); continue
         if p0 != 0 or v0 != 0:
-            stat['src_rejected'] += 1; continue          # the source document was not accepted: nothing to round trip (C04's territory)
+            stat['src_rejected'] += 1
+            # The source is rendered from a value tree: integers and enum symbols are spelled exactly as the printer spells them, so a parser that
+            # refuses the document refuses printer output for a buffer holding these values (e.g. a type minimum), without the buffer ever being built
+            ctx.violation('valid-document-rejected', 'a document rendered from a value tree (numbers and symbols spelled as the printer spells them) is rejected by the generated parser: '
+                          'parse error %d, verify %d; the round trip cannot even start' % (p0, v0), replay)
+            continue
         stat['rt'] += 1
         t1 = bytes.fromhex(f[8]) if f[8] != '-' else b''
         replay['printed'] = t1[:3000].decode('latin1')
         if prc < 0:
             ctx.violation('print-error', 'printer failed with %d on a verified buffer (flags %d, indent %d)' % (prc, pf, indent), replay); continue
+        if (p1 != 0 or deq != 1) and full_zero(root, v, pf, t1):
+            ctx.violation('bitflags-zero-all-bits', 'a bit_flags enum that defines every bit of its base type prints the value 0 as an empty symbol list (`""`, or nothing with unquote): '
+                          '%s (printer flags %d)' % ('the generated parser rejects the text with error %d' % p1 if p1 != 0 else 'the element disappears on reparse', pf), replay); continue
         if p1 != 0:
             ctx.violation('reparse-fails', 'printed text is rejected by the generated parser with error %d (printer flags %d, indent %d)' % (p1, pf, indent), replay); continue
         if v1 != 0:
@@ -458,6 +497,14 @@ def run(ctx):
              'alphabets and padding modes, decoder on printer output / python encodings / damaged text with destination limits; round trips: value trees for 8 root types x 16 printer '
              'flag sets x indents (0..8, 17, 255) with parser force_add; sampled boundary floats',
         explanation='theorems of Properties_C05 re-checked; extracted codec models compared with /repo; python json/base64 as independent judges; print->parse->dump/reprint equality on generated code')
+
+
+def full_zero(root, v, pf, t1):
+    """the buffer holds (or force_default prints) the value 0 of the all-bits bit_flags enum Full, as a field or a vector element"""
+    if root != 'Nums': return False
+    if isinstance(v, dict):
+        return v.get('full', None) == 0 or 0 in v.get('vfull', []) or (bool(pf & PF_FORCE_DEFAULT) and 'full' not in v)
+    return re.search(rb'full"?:\s*(""|[,}\]])', t1) is not None
 
 
 def negzero_default(root, v):
